@@ -758,13 +758,13 @@ theorem witnesses_supported : ∀ w ∈ [wTopFrame, wTopShape, wNestedShape, wTo
 def tLine : Str := [100, 114, 97, 119, 58, 108, 105, 110, 101]  -- draw:line
 def tGroup : Str := [100, 114, 97, 119, 58, 103]  -- draw:g
 
-/-- **C18 (MoinMoin, pending m-top-shape-unlisted / m-nested-shape-unlisted)**: draw:line and draw:g (a group of shapes)
-    hold paragraphs too but are not in `CONTAINER_TAGS`: as children of office:text and inside running text their
-    paragraphs are still lost (corpus document `moin-line-and-group`; the real converter gives the same strings) -/
-theorem moin_line_and_group_text_lost :
-    lostIn [par 97, .elem tLine [] [par 50], par 98] = true ∧ lostIn [par 97, .elem tGroup [] [.elem tRect [] [par 50]], par 98] = true ∧
-    lostIn [.elem tP [] [.text [97], .elem tLine [] [par 50], .text [98]]] = true ∧
-    lostIn [.elem tP [] [.text [97], .elem tGroup [] [.elem tRect [] [par 50]], .text [98]]] = true := by
+/-- **C18 (MoinMoin, after repair of m-top-shape-unlisted / m-nested-shape-unlisted)**: draw:line and draw:g (a group of
+    shapes) hold paragraphs too; since they are in `CONTAINER_TAGS` their paragraphs are carried, as children of office:text
+    and inside running text (corpus document `moin-line-and-group`) -/
+theorem moin_line_and_group_text_kept :
+    lostIn [par 97, .elem tLine [] [par 50], par 98] = false ∧ lostIn [par 97, .elem tGroup [] [.elem tRect [] [par 50]], par 98] = false ∧
+    lostIn [.elem tP [] [.text [97], .elem tLine [] [par 50], .text [98]]] = false ∧
+    lostIn [.elem tP [] [.text [97], .elem tGroup [] [.elem tRect [] [par 50]], .text [98]]] = false := by
   decide +kernel
 
 /-- **C18 (MoinMoin): the full statement is still false in the model** — not for a container any more, but for a
